@@ -7,6 +7,7 @@ import RR.Proof.V2S
 import RR.Proof.Resampler
 import RR.Proof.SinkSrc
 import RR.Proof.Wrap
+import RR.Proof.Cma
 
 /-!
 # C09 — block verdicts are truthful
@@ -388,5 +389,17 @@ theorem c09_fft_float_old_eof_unsound :
     ((wrapWork (Dsp.fftBlock Dsp.giOps Dsp.giCodec [(1, 0)]) 512 id id s v).2.produced.getD 0 ⟨[], []⟩).samples = [7] := by
   decide
 
+
+/-- `CmaEqualizer` (model `Dsp.cmaBlock`, compared call by call): a wait on the input is issued only when fewer
+than `ntaps` samples are readable, a wait on the output only when the input would do and fewer than `ntaps` are
+free — each for exactly the amount that is missing, with nothing consumed, produced or changed — and every other
+call consumes `ntaps` samples. -/
+theorem c09_cma_verdicts (n : Nat) (m s : Float32) (taps : List Dsp.C32) (v : View) :
+    let r := Dsp.cmaWork n m s taps v
+    (r.2.verdict = .waitIn 0 n ∧ (in0 v).samples.length < n ∧ r.1 = taps ∧ r.2 = noOut v (.waitIn 0 n)) ∨
+    (r.2.verdict = .waitOut 0 n ∧ n ≤ (in0 v).samples.length ∧ (out0 v).free < n ∧ r.1 = taps ∧
+      r.2 = noOut v (.waitOut 0 n)) ∨
+    (r.2.verdict = .again ∧ n ≤ (in0 v).samples.length ∧ n ≤ (out0 v).free ∧ r.2.consumed = [n]) :=
+  Dsp.cma_verdicts n m s taps v
 
 end RR.Props.C09
